@@ -7,7 +7,7 @@ must be equal as sets (row order is free).  A run that fails under a restricted 
 a configuration under which a run raises while the reference returns is counted and reported only when the error is not a resource error.
 Part A: generated scripts of the C02-C06 generators (clauses, aggregations, set operators, joins, analytic functions with total orderings)
 and corpus cases on small data.  Part B: a fixed list of 26 scripts whose result VTL semantics fully determines, over bulk inputs large enough
-for DuckDB to parallelise (quick 2x10^5 rows, thorough 10^6), values dyadic so that sums are exact; compared with pandas.
+for DuckDB to parallelise (quick 3x10^5 rows = 3 DuckDB row groups, thorough 10^6), values dyadic so that sums are exact; compared with pandas.
 """
 import contextlib, os, shutil, tempfile, warnings
 from verif import core, corpus, cmp, eng, gen
@@ -164,7 +164,7 @@ BULK_SCRIPTS = [
     ("if_then", "R <- if DS_1#Me_2 > 4 then DS_1 else DS_2;"),
     ("check_datapoint", 'define datapoint ruleset dpr (variable Me_1, Me_2) is r1: Me_1 >= Me_2 errorcode "e1" errorlevel 1; r2: when Me_2 > 5 then Me_1 > 0 errorcode "e2" end datapoint ruleset; R <- check_datapoint(DS_1, dpr invalid);'),
     ("time_series", "R <- flow_to_stock(DS_T); S <- timeshift(DS_T, 1); T <- fill_time_series(DS_T, single);"),
-    ("viral_enumerated_group", 'define viral propagation vp1 (variable At_1) is when "A" and "B" then "C"; when "C" then "A"; when "B" then "B"; else "D" end viral propagation; define viral propagation vp2 (variable At_2) is aggregate min end viral propagation; R <- sum(DS_V group by Id_2);'),
+    ("viral_enumerated_group", 'define viral propagation vp1 (variable At_1) is when "A" and "B" then "C"; when "A" and "C" then "B"; when "B" and "C" then "A"; else "A" end viral propagation; define viral propagation vp2 (variable At_2) is aggregate min end viral propagation; R <- sum(DS_V group by Id_2);'),
     ("viral_aggregate_binary", "define viral propagation vp1 (variable At_2) is aggregate max end viral propagation; define viral propagation vp2 (variable At_1) is when \"A\" then \"A\"; else \"Z\" end viral propagation; R <- DS_V + DS_V;"),
     ("ratio_cancelling", "R <- ratio_to_report(DS_C over (partition by Id_2));"), ("sum_cancelling", "R <- sum(DS_C group by Id_2); S <- avg(DS_C group by Id_2);"),
     ("multi_statement", "A := DS_1 [filter Me_2 <= 7]; B := sum(A group by Id_2); C := A [calc k := Me_1 + 1]; R <- inner_join(C as c, B as b rename c#Me_1 to M1, b#Me_1 to T1, c#Me_2 to M2, b#Me_2 to T2);"),
@@ -189,10 +189,10 @@ def bulk_inputs(n, seed):
     dft = pd.DataFrame({"Id_1": k // 36, "Id_t": ["%dM%d" % (2000 + (i % 36) // 12, (i % 12) + 1) for i in k], "Me_1": rng.randint(-400, 400, len(k)) / 4.0})
     dft = dft[rng.rand(len(dft)) > 0.1].sample(frac=1.0, random_state=seed).reset_index(drop=True)
     # viral attributes (a rule table that is not associative) and large, mostly cancelling values (exact in decimal arithmetic, order-sensitive in binary floating point)
-    nv = max(1000, n // 2)
+    nv = n   # several DuckDB row groups (122 880 rows each): smaller tables are scanned by one thread whatever VTL_THREADS says
     compsV = [eng.comp("Id_1", "Integer", "I"), eng.comp("Id_2", "Integer", "I"), eng.comp("Me_1", "Number"), eng.comp("At_1", "String", "V"), eng.comp("At_2", "Integer", "V")]
     iv = np.arange(nv)
-    dfv = pd.DataFrame({"Id_1": iv // 64, "Id_2": iv % 64, "Me_1": rng.randint(0, 100, nv) / 4.0, "At_1": np.array(["A", "B", "C", "D"])[rng.randint(0, 4, nv)], "At_2": rng.randint(0, 1000, nv)}).sample(frac=1.0, random_state=seed).reset_index(drop=True)
+    dfv = pd.DataFrame({"Id_1": iv // 64, "Id_2": iv % 64, "Me_1": rng.randint(0, 100, nv) / 4.0, "At_1": np.array(["A", "B", "C"])[rng.randint(0, 3, nv)], "At_2": rng.randint(0, 1000, nv)}).sample(frac=1.0, random_state=seed).reset_index(drop=True)
     compsC = [eng.comp("Id_1", "Integer", "I"), eng.comp("Id_2", "Integer", "I"), eng.comp("Me_1", "Number")]
     big = np.where(iv % 2 == 0, 1.0, -1.0) * 1e15
     dfc = pd.DataFrame({"Id_1": iv // 8, "Id_2": iv % 8, "Me_1": big + rng.randint(1, 4000, nv) / 4.0}).sample(frac=1.0, random_state=seed).reset_index(drop=True)
@@ -278,7 +278,7 @@ def _dispatch(fname, args):
 
 def run(ctx):
     q = ctx.quick
-    n = 200000 if q else 1000000
+    n = 300000 if q else 1000000
     ctx.rule = ("cases: (script, inputs) run under the reference configuration and re-run under it and under 2-3 of the 12 other configurations (VTL_THREADS 2/4/16 x in-memory / file-backed x default / reduced memory limit, private temp dir); "
                 "Part A small generated (6 generators) and corpus cases, Part B %d bulk scripts over %d-row inputs; non-trivial = case with >=2 input rows whose reference run completes; a resource error under a restricted configuration is inconclusive" % (len(BULK_SCRIPTS), n))
     jobs = [("work_small", (ctx.seed * 1009 + k, 12 if q else 400)) for k in range(8)]
